@@ -53,6 +53,9 @@ type scOp struct {
 	Keep    int    // samples kept by metric relabeling
 	Drop    int    // samples dropped by metric relabeling
 	Stopped bool
+	// Flip (scrape only): while the request is parked at the target the stop-scrape reason is switched (set if it was not,
+	// cleared if it was): what counts is the reason the scrape started under
+	Flip bool
 	// During (update only): a scrape through the proxy that is in flight - parked at the target - while this update
 	// arrives, and completes afterwards
 	During *scOp `json:",omitempty"`
@@ -426,14 +429,33 @@ func (w *scWorld) apply(op scOp) (ok bool) {
 			delete(w.jobInfo, name)
 			defer func() { w.jobInfo[name] = ji }()
 		}
-		func() {
+		serve := func() {
 			defer func() {
 				if r := recover(); r != nil && r != http.ErrAbortHandler {
 					panic(r)
 				}
 			}()
 			w.proxy.ServeHTTP(rec, httptest.NewRequest("GET", u, nil))
-		}()
+		}
+		if op.Flip && w.rt.gate == nil {
+			w.rt.gate, w.rt.reached = make(chan struct{}), make(chan struct{}, 1)
+			done := make(chan struct{})
+			go func() { defer close(done); serve() }()
+			select {
+			case <-w.rt.reached:
+			case <-done:
+			}
+			other := "scraping stopped by operator"
+			if op.Stopped {
+				other = ""
+			}
+			_ = w.cfg.UpdateExtraConfig(prom.ExtraConfig{StopScrapeReason: other})
+			close(w.rt.gate)
+			<-done
+			w.rt.gate, w.rt.reached = nil, nil
+			return true
+		}
+		serve()
 		return true
 	case "restart":
 		if err := w.start(); err != nil {
@@ -702,7 +724,9 @@ func sidecarGen(r *rand.Rand, idx int, thorough bool) interface{} {
 			}
 			res := []string{"ok", "ok", "ok", "ok", "connfail", "status500", "midbody", "noclient"}[r.Intn(8)]
 			keep := []int{0, 1, 2, 3, 7, 10, 11, 100}[r.Intn(8)]
-			c.Ops = append(c.Ops, scOp{Kind: "scrape", Now: now, Hash: h, Job: curJob[h], Result: res, Keep: keep, Drop: r.Intn(4) * r.Intn(5), Stopped: r.Intn(12) == 0})
+			stopped := r.Intn(12) == 0
+			c.Ops = append(c.Ops, scOp{Kind: "scrape", Now: now, Hash: h, Job: curJob[h], Result: res, Keep: keep, Drop: r.Intn(4) * r.Intn(5), Stopped: stopped,
+				Flip: (stopped && i%2 == 0) || (!stopped && (i+idx)%9 == 0)})
 		default:
 			c.Ops = append(c.Ops, scOp{Kind: "restart", Now: now})
 		}
